@@ -115,15 +115,27 @@ func (r *runner) sign(body txkit.Body, s sspec) std.Signature {
 				who[i] = true
 			}
 		}
+		// every sub-signature is registered on its own: the model judges the container by its content
+		for i, sub := range key.Subs {
+			if i < len(who) && who[i] {
+				sr := *rec
+				sr.pub = sub.Pub.Bytes()
+				subMsg := msg
+				if i == s.subSeq {
+					sr.seq = seq + 1
+					subMsg = txkit.SignBytes(sb, chain, num, seq+1)
+				}
+				r.m.register(sub.SignRaw(subMsg), &sr)
+			}
+		}
 		if s.subSeq >= 0 {
 			// one sub-key signs a different sign doc
 			alt := txkit.SignBytes(sb, chain, num, seq+1)
 			sig = multisigMixed(key, msg, alt, who, s.subSeq)
-			rec.good = false
 		} else {
 			sig = key.MultiSig(msg, who, s.bits)
-			rec.good = len(who) == len(key.Subs) && count(who) >= key.K && (s.bits == nil || eqBools(s.bits, who))
 		}
+		rec.good = false // the container itself is never looked up
 	} else {
 		sig = key.SignRaw(msg)
 	}
